@@ -325,6 +325,42 @@ func runExhaust(h *XHistory, u upstream.Upstream) {
 	s := h.S
 	n := h.XP.Exhaust
 	fails := 0
+	// the last 300 exchanges before the id space runs out, and everything
+	// after, are issued in concurrent waves, so that several callers meet the
+	// connection at its end of life together
+	seqN := 65536 - 300
+	defer func() {
+		var wg sync.WaitGroup
+		for i := seqN; i < n+300; i += 8 {
+			for k := 0; k < 8; k++ {
+				wg.Add(1)
+				idx := i + k
+				go func() {
+					defer wg.Done()
+					time.Sleep(time.Duration(s.IntN("exw", uint64(idx), 300)) * time.Microsecond)
+					c := &plan.XCall{Idx: 1_000_000 + idx, Token: fmt.Sprintf("tx%d", idx), ID: uint16(idx * 7), Type: 1}
+					ctx, cancel := context.WithTimeout(context.Background(), 3*time.Second)
+					m, err := u.ExchangeContext(ctx, xQuery(c))
+					cancel()
+					if err != nil {
+						return
+					}
+					if rm, perr := dnsToRef(m); perr == nil {
+						if meta, ok := peers.DecodeMeta(rm); ok && meta.Token != c.Token {
+							s.Fail("C05", "foreign-reply-at-end-of-life", "exchange for %s on the exhausted connection returned the reply generated for %s", c.Token, meta.Token)
+						}
+						if rm.ID != c.ID {
+							s.Fail("C05", "caller-id", "exchange %s: returned id %d, caller id %d", c.Token, rm.ID, c.ID)
+						}
+					}
+					dnsmsg.ReleaseMsg(m)
+				}()
+			}
+			wg.Wait()
+		}
+		s.Probe("c05_exhaust_concurrent_tail")
+	}()
+	n = seqN
 	for i := 0; i < n; i++ {
 		c := &plan.XCall{Idx: 1_000_000 + i, Token: "tx", ID: uint16(i * 7), Type: 1}
 		ctx, cancel := context.WithTimeout(context.Background(), 3*time.Second)
@@ -518,8 +554,14 @@ func checkC06(h *XHistory) {
 }
 
 func eventIn(h *XHistory, up int, from, to time.Duration) bool {
+	// a QUIC peer that crashed silently is only noticed when the connection's
+	// idle time-out (30 s) expires; nothing promises an earlier recovery
+	before := time.Second
+	if k := h.XP.Upstreams[up].Kind; k == "quic" || k == "h3" {
+		before = 35 * time.Second
+	}
 	for _, e := range h.Events {
-		if e.Up == up && us(e.AtUs) >= from-time.Second && us(e.AtUs) <= to+time.Second {
+		if e.Up == up && us(e.AtUs) >= from-before && us(e.AtUs) <= to+time.Second {
 			return true
 		}
 	}
